@@ -1,5 +1,6 @@
 mod engine;
 mod gen;
+mod hist;
 mod norm;
 mod props;
 
@@ -59,6 +60,7 @@ macro_rules! dispatch {
     ($id:expr, $f:ident $(, $arg:expr)*) => {
         match $id {
             "C01" => $f(&props::c01::C01 $(, $arg)*),
+            "C08" => $f(&props::c08::C08 $(, $arg)*),
             other => {
                 eprintln!("unknown property {}", other);
                 3
@@ -80,6 +82,13 @@ fn main() {
             let tier = if args.get(3).map(|s| s.as_str()) == Some("thorough") { Tier::Thorough } else { Tier::Quick };
             dispatch!(args[2].as_str(), run_property, tier)
         }
+        "bt" => {
+            // debugging aid: print the raw backtrace of a panic
+            std::panic::set_hook(Box::new(|i| { eprintln!("{}\n{}", i, std::backtrace::Backtrace::force_capture()); }));
+            in_session(REPO_RULES, || { let x = args[2].clone(); let _ = std::panic::catch_unwind(move || libmathcat::set_mathml(x)); });
+            0
+        }
+        "depth-child" => props::c08::depth_child(&args[2], args[3].parse().unwrap()),
         "worker" => {
             // mcv worker <ID> <tier> <stream> <start> <end>
             let tier = if args[3] == "thorough" { Tier::Thorough } else { Tier::Quick };
